@@ -33,14 +33,25 @@ import (
 // Functions of the pinned tree are never inlined, so on the unchanged tree this pass changes nothing.
 
 var (
-	normMu   sync.Mutex
-	normDone = map[*packages.Package]bool{}
+	normMu      sync.Mutex
+	normDone    = map[*packages.Package]bool{}
+	inlinedAway = map[*types.Func]bool{} // new helpers all of whose calls were expanded: dropped from the index
 )
 
 func resetNormalised() {
 	normMu.Lock()
 	normDone = map[*packages.Package]bool{}
+	inlinedAway = map[*types.Func]bool{}
 	normMu.Unlock()
+}
+
+func isInlinedAway(f *types.Func) bool {
+	if f == nil {
+		return false
+	}
+	normMu.Lock()
+	defer normMu.Unlock()
+	return inlinedAway[f]
 }
 
 func recordAllFuncs(p *packages.Package, fs map[string]*FuncInfo) {
@@ -131,6 +142,57 @@ func normalisePackage(m *Module, p *packages.Package) int {
 	for _, o := range objs {
 		in.normalise(o)
 	}
+	// helpers every call of which was expanded are no longer part of the program the rules look at
+	live := map[*types.Func]bool{}
+	var work []*types.Func
+	for _, o := range objs {
+		if !in.fresh[o] {
+			live[o] = true
+			work = append(work, o)
+		}
+	}
+	for len(work) > 0 {
+		o := work[len(work)-1]
+		work = work[:len(work)-1]
+		fd := in.decls[o]
+		if fd == nil || fd.Body == nil {
+			continue
+		}
+		ast.Inspect(fd.Body, func(n ast.Node) bool {
+			if id, ok := n.(*ast.Ident); ok {
+				if f, isF := in.info.Uses[id].(*types.Func); isF {
+					f = f.Origin()
+					if _, declared := in.decls[f]; declared && !live[f] {
+						live[f] = true
+						work = append(work, f)
+					}
+				}
+			}
+			return true
+		})
+	}
+	// package-level initialisers may reference helpers too
+	for _, file := range p.Syntax {
+		for _, d := range file.Decls {
+			if gd, ok := d.(*ast.GenDecl); ok {
+				ast.Inspect(gd, func(n ast.Node) bool {
+					if id, ok := n.(*ast.Ident); ok {
+						if f, isF := in.info.Uses[id].(*types.Func); isF {
+							live[f.Origin()] = true
+						}
+					}
+					return true
+				})
+			}
+		}
+	}
+	normMu.Lock()
+	for _, o := range objs {
+		if in.fresh[o] && !live[o] && !o.Exported() {
+			inlinedAway[o] = true
+		}
+	}
+	normMu.Unlock()
 	return in.count
 }
 
@@ -792,10 +854,15 @@ func (cp *copier) node(n ast.Node) ast.Node {
 	}
 	out := nv.Interface().(ast.Node)
 	cp.copyInfo(n, out)
-	// *(&x) left behind by substituting &x for a pointer parameter is x
+	// *(&x) left behind by substituting &x for a pointer parameter is x, and (&x).f is x.f
 	if st, ok := out.(*ast.StarExpr); ok {
 		if u, isU := unparen(st.X).(*ast.UnaryExpr); isU && u.Op == token.AND {
 			return u.X
+		}
+	}
+	if se, ok := out.(*ast.SelectorExpr); ok {
+		if u, isU := unparen(se.X).(*ast.UnaryExpr); isU && u.Op == token.AND {
+			se.X = u.X
 		}
 	}
 	return out
